@@ -697,6 +697,7 @@ func (p *Prog) KeywordTable() map[string]string {
 }
 
 var usedAsValueCache = map[*ssa.Function]bool{}
+
 // OnlyCalled: every use of fn in the module is a call — direct, or through an interface method (the call sites are all
 // known: CallSites lists them); it is never stored, passed or bound as a value.
 func (p *Prog) OnlyCalled(fn *ssa.Function) bool {
